@@ -47,6 +47,14 @@ pub fn check_bytes(b: &[u8], st: &mut Stats, deep: bool) -> Check {
             }
         }
         (Err(_), Err(e)) => {
+            // a byte string that names no program weighs nothing wherever a weight is computed from bytes (the fee
+            // rule charges a transaction for the covenants it carries through this very function): the weigh site and
+            // the decoder must agree on which strings are programs
+            match catch(|| melvm::covenant_weight_from_bytes(b)) {
+                Ok(0) => {}
+                Ok(w) => viol!("undecodable-bytes-have-a-weight", "bytes {} do not decode, yet covenant_weight_from_bytes gives {}", hex(&b[..b.len().min(64)]), w),
+                Err(p) => viol!("decode-panic", "covenant_weight_from_bytes panicked on {}: {:?}", hex(&b[..b.len().min(64)]), p),
+            }
             // non-trivial when at least one instruction decoded before the rejection
             let first_ok = (1..b.len()).any(|i| refvm::decode(&b[..i]).map(|o| !o.is_empty()).unwrap_or(false));
             if first_ok {
@@ -301,7 +309,7 @@ pub fn run(ctx: &Ctx) -> (Outcome, String, Option<bool>) {
     );
     out.absorb(o);
 
-    let rule = "Enumerated: every byte string of length 0-3 (16 843 009 strings) and every opcode byte followed by 0-40 operand bytes of 5 patterns, pushb/pushic with every length byte x leading byte x short/exact/long payload. Programs of 65 534 to 131 072 one-byte instructions with valid, invalid and truncated tails. Generated: instruction lists with operands over their full range (ops->bytes->ops), random strings to 4 KiB, mutated valid encodings and near-misses of the standard signature covenants (bytes->ops->bytes). Oracle: round trips, agreement with RefVM's independent decoder/encoder on accept/reject and instruction list, hash/weight/covenant_weight_from_bytes/debug_execute equal between the from_bytes and from_ops views. Non-trivial = decodes to >=1 instruction carrying an operand, or is rejected after >=1 instruction decoded; distinct by bytes.".to_string();
+    let rule = "Enumerated: every byte string of length 0-3 (16 843 009 strings) and every opcode byte followed by 0-40 operand bytes of 5 patterns, pushb/pushic with every length byte x leading byte x short/exact/long payload. Programs of 65 534 to 131 072 one-byte instructions with valid, invalid and truncated tails. Generated: instruction lists with operands over their full range (ops->bytes->ops), random strings to 4 KiB, mutated valid encodings and near-misses of the standard signature covenants (bytes->ops->bytes). Oracle: round trips, agreement with RefVM's independent decoder/encoder on accept/reject and instruction list, hash/weight/covenant_weight_from_bytes/debug_execute equal between the from_bytes and from_ops views; a string that does not decode has weight 0 at the weigh site (covenant_weight_from_bytes). Non-trivial = decodes to >=1 instruction carrying an operand, or is rejected after >=1 instruction decoded; distinct by bytes.".to_string();
     (out, rule, Some(true))
 }
 
